@@ -52,3 +52,10 @@ json.dump({"comment": "reference of what each accepting exit of a parser deliver
            "functions": {p: sig for p, (sig, b) in sorted(st.items())}},
           open(os.path.join(HERE, "spec", "store_maps.json"), "w"), indent=1)
 print("wrote", len(st), "store maps")
+
+from rules import emit
+em = emit.extract_all(F)
+json.dump({"comment": "reference emission templates of the serialisers (see rules/emit.py)",
+           "functions": {p: {"t": t, "show": emit.render(t)[:2000]} for p, (t, b) in sorted(em.items())}},
+          open(os.path.join(HERE, "spec", "emit_templates.json"), "w"), indent=1)
+print("wrote", len(em), "emission templates")
